@@ -593,6 +593,30 @@ func (env *SpecEnv) call(x *SExpr) SV {
 		}
 		env.e.ensureState("bank", "(Array Addr (Array Str Int))")
 		return SV{t: fmt.Sprintf("(select (select %s %s) %s)", env.state("bank"), argv(0).t, argv(1).t), sort: "Int"}
+	case "param": // param(KeyName): value of a module parameter (x/params subspace), identified by its key variable
+		if len(x.Args) == 1 && x.Args[0].Op == "id" {
+			full := env.e.r.v.lookupGlobalVar(env.e.fn, x.Args[0].S)
+			if full == "" {
+				env.fail("param: unknown key variable %s", x.Args[0].S)
+				break
+			}
+			name := "param:" + full
+			srt, ok := env.e.r.stSort[name]
+			var gt types.Type
+			if decl, has := env.e.r.v.specs.Params[full]; has {
+				ds, dgt := env.quantSort(decl)
+				if ok && ds != srt {
+					env.fail("param %s declared as %s but used as %s", full, ds, srt)
+				}
+				srt, gt, ok = ds, dgt, true
+				env.e.ensureState(name, srt)
+			}
+			if !ok {
+				env.fail("param %s has no //@ param declaration and is not read by this function", full)
+				break
+			}
+			return SV{t: env.state(name), sort: srt, gt: gt}
+		}
 	case "oldbal": // balance in the old state of an (address, denom) evaluated in the current state
 		if !need(2) {
 			break
@@ -623,6 +647,8 @@ func (env *SpecEnv) call(x *SExpr) SV {
 		return SV{t: fmt.Sprintf("(imax %s %s)", argv(0).t, argv(1).t), sort: "Int"}
 	case "min":
 		return SV{t: fmt.Sprintf("(imin %s %s)", argv(0).t, argv(1).t), sort: "Int"}
+	case "same": // structural identity (for float fields: bit-identical, unlike Go's ==)
+		return SV{t: fmt.Sprintf("(= %s %s)", argv(0).t, argv(1).t), sort: "Bool"}
 	case "isnil":
 		a := argv(0)
 		if _, ok := g.sliceElem[a.sort]; ok {
